@@ -123,7 +123,7 @@ def static_eval(ctx, rng, idx, h):
         return {"object": S.describe(), "extra": repr(extra)[:800]}
 
     results = {}
-    for s in (1, 2, 3):
+    for s in rng.sample([1, 2, 3], 3) + [1, 3, 2, 1]:  # thresholds in any order, DEscending steps included (each answer stands alone)
         rb, rc = edge_centralities(edges, s)
         for name, fn, ref in (("s_betweenness", sc.s_betweenness, rb), ("s_closeness", sc.s_closeness, rc)):
             r = call(fn, h, s)
@@ -191,6 +191,27 @@ def temporal_case(ctx, rng, idx):
             h.add_edge((i, i + 1, i + 2), 0)
         for e, t in (((0, 5), 1), ((5, 9, 11), 1), ((2, 3), 4), ((3, 4, 2000), 4)):
             h.add_edge(e, t)
+    elif idx % 16 == 5:
+        # the SAME set of hyperedges at several time stamps, inserted in a different order each time (plus other snapshots): the
+        # average is over snapshots, and a snapshot is a set - how its hyperedges were listed does not matter
+        import hypergraphx as hgx
+
+        ctx.event("repeated-snapshot-in-other-insertion-orders")
+        pool = rng.sample(range(0, 40), rng.randint(6, 9))
+        base = set()
+        while len(base) < rng.randint(3, 6):
+            base.add(tuple(sorted(rng.sample(pool, rng.choice([2, 3, 3, 4])))))
+        base = sorted(base)
+        # a chain sharing two nodes between consecutive hyperedges: at s=2 the line graph is (close to) a path
+        chain = [tuple(sorted((pool[i], pool[i + 1], pool[i + 2]))) for i in range(0, min(len(pool) - 2, rng.randint(3, 5)))]
+        h = hgx.TemporalHypergraph()
+        for t, es_ in ((0, base), (3, base), (1, chain), (5, chain), (7, chain)):
+            es_ = list(es_)
+            rng.shuffle(es_)
+            for e in es_:
+                h.add_edge(e, t)
+        for _ in range(rng.randint(0, 3)):
+            h.add_edge(tuple(sorted(rng.sample(pool, 2))), rng.choice([2, 4, 6]))
     else:
         try:
             live, _ = history.run_history(history.BuildCtx(ctx, "C20"), rng, cfg, battery_every=0)
@@ -207,7 +228,7 @@ def temporal_case(ctx, rng, idx):
     def wit(extra=None):
         return {"object": S.describe(), "extra": repr(extra)[:800]}
 
-    s = rng.choice([1, 1, 2, 3])
+    s = rng.choice([1, 1, 2, 3]) if idx % 16 != 5 else rng.choice([2, 2, 1, 3])
     eb, ec, nb, ncl = {}, {}, {}, {}
     for t in times:
         es = snaps[t]
